@@ -187,6 +187,8 @@ type streamGRPC struct {
 	opts            muxOptions
 	ctx             context.Context
 	done            <-chan struct{} // ctx.Done()
+	mu              sync.Mutex      // guards closed and wg.Add
+	closed          bool            // the handler returned
 	wg              sync.WaitGroup
 	handler         *handler
 	codec           Codec      // both read and write
@@ -199,6 +201,26 @@ type streamGRPC struct {
 	contentType     string
 	messageEncoding string
 	sentHeader      bool
+}
+
+// begin registers a stream method call. Calls from goroutines that outlive
+// the handler are refused once the stream is closed, so that wg.Add never
+// runs concurrently with the final wg.Wait.
+func (s *streamGRPC) begin() error {
+	s.mu.Lock()
+	defer s.mu.Unlock()
+	if s.closed {
+		return status.Error(codes.Canceled, "grpc: the stream is done")
+	}
+	s.wg.Add(1)
+	return nil
+}
+
+func (s *streamGRPC) close() {
+	s.mu.Lock()
+	s.closed = true
+	s.mu.Unlock()
+	s.wg.Wait()
 }
 
 func (s *streamGRPC) isDone() error {
@@ -218,7 +240,9 @@ func (s *streamGRPC) SetHeader(md metadata.MD) error {
 	return nil
 }
 func (s *streamGRPC) SendHeader(md metadata.MD) error {
-	s.wg.Add(1)
+	if err := s.begin(); err != nil {
+		return err
+	}
 	defer s.wg.Done()
 
 	if err := s.isDone(); err != nil {
@@ -277,7 +301,9 @@ func (s *streamGRPC) compress(dst *bytes.Buffer, b []byte) error {
 }
 
 func (s *streamGRPC) SendMsg(m interface{}) error {
-	s.wg.Add(1)
+	if err := s.begin(); err != nil {
+		return err
+	}
 	defer s.wg.Done()
 
 	if err := s.isDone(); err != nil {
@@ -371,7 +397,9 @@ func (s *streamGRPC) decompress(dst *bytes.Buffer, b []byte) error {
 }
 
 func (s *streamGRPC) RecvMsg(m interface{}) error {
-	s.wg.Add(1)
+	if err := s.begin(); err != nil {
+		return err
+	}
 	defer s.wg.Done()
 
 	if err := s.isDone(); err != nil {
@@ -577,7 +605,7 @@ func (m *Mux) serveGRPC(w http.ResponseWriter, r *http.Request) {
 	// Sync handler return to stream methods.
 	defer func() {
 		cancel()
-		stream.wg.Wait()
+		stream.close()
 	}()
 
 	herr := hd.handler(&m.opts, stream)
